@@ -12,6 +12,58 @@ static const uint64_t PR = ref::PR;
 
 static std::string hx(uint64_t x) { char b[32]; snprintf(b, sizeof b, "0x%016llx", (unsigned long long)x); return b; }
 
+// ---- calls made DURING STATIC INITIALISATION: this translation unit comes first on the link line, so the constructor below runs before the
+// library's own translation units have been initialised; a fixed battery (operands that need the carry / borrow corrections) is recorded here
+// and compared with the oracle later, from main (property c01.static_init)
+static const uint64_t EARLY_OPS[][2] = {{0xFFFFFFFFFFFFFFFFull, 0xFFFFFFFFFFFFFFFFull}, {0xFFFFFFFF00000000ull, 5}, {3, 0xFFFFFFFF00000002ull}, {0, 1}, {0x8000000000000000ull, 0x8000000000000001ull},
+                                        {0xFFFFFFFF00000001ull, 0xFFFFFFFFull}, {0x123456789ABCDEF0ull, 0xFEDCBA9876543210ull}, {1, 0xFFFFFFFF00000000ull}};
+struct EarlyProbe {
+    uint64_t r[8][6]; bool skipped = false;
+    EarlyProbe() { if (getenv("PBT_NO_EARLY")) { skipped = true; return; } for (int i = 0; i < 8; i++) { E a = {EARLY_OPS[i][0]}, b = {EARLY_OPS[i][1]};
+        r[i][0] = Goldilocks::toU64(a + b); r[i][1] = Goldilocks::toU64(a - b); r[i][2] = Goldilocks::toU64(a * b); r[i][3] = Goldilocks::toU64(Goldilocks::neg(a));
+        r[i][4] = Goldilocks::toU64(Goldilocks::square(b)); r[i][5] = Goldilocks::toU64(Goldilocks::mulScalar(a, EARLY_OPS[i][1])); } }
+};
+static EarlyProbe g_early;
+static bool body_static_init(const Case &, Ctx &ctx)
+{
+    if (g_early.skipped) { ctx.cls("context:static-initialisation-probe-switched-off"); return true; }
+    ctx.nt("context:called-during-static-initialisation");
+    for (int i = 0; i < 8; i++) { uint64_t a = EARLY_OPS[i][0], b = EARLY_OPS[i][1];
+        uint64_t w[6] = {ref::add(a, b), ref::sub(a, b), ref::mul(a, b), ref::neg(a), ref::mul(b, b), ref::mul(a, b)};
+        static const char *n[] = {"add", "sub", "mul", "neg", "square", "mulScalar"};
+        for (int k = 0; k < 6; k++) if (g_early.r[i][k] != w[k]) return ctx.fail(std::string(n[k]) + "(" + hx(a) + ", " + hx(b) + ") called during static initialisation (before main) returned " + hx(g_early.r[i][k]) + ", want " + hx(w[k])); }
+    return true;
+}
+// ---- a LEAF function (no calls, only the inlined field operations) working on a local array, the way the hash rounds use the operations:
+// the inline assembly of an operation must leave everything but its declared outputs alone, including the stack red zone of its caller
+static __attribute__((noinline)) void leaf_rounds(uint64_t *out, const uint64_t *in, uint64_t k)
+{
+    E s[12];
+    for (int i = 0; i < 12; i++) s[i].fe = in[i];
+    E kk = {k};
+    for (int r = 0; r < 3; r++) {
+        for (int i = 0; i < 12; i++) s[i] = s[i] - s[(i + 5) % 12];
+        for (int i = 0; i < 12; i++) s[i] = s[i] * kk + s[(i + 1) % 12];
+        for (int i = 0; i < 12; i += 3) s[i] = -s[i];
+    }
+    for (int i = 0; i < 12; i++) out[i] = Goldilocks::toU64(s[i]);
+}
+// payload: 12 words + k
+static bool body_leaf(const Case &c, Ctx &ctx)
+{
+    ctx.nt("context:operations-inlined-into-a-leaf-function-with-local-state");
+    uint64_t in[12], w[12], out[12]; for (int i = 0; i < 12; i++) { in[i] = c.v[i]; w[i] = c.v[i] % PR; }
+    const uint64_t k = c.v[12];
+    for (int r = 0; r < 3; r++) {
+        for (int i = 0; i < 12; i++) w[i] = ref::sub(w[i], w[(i + 5) % 12]);
+        for (int i = 0; i < 12; i++) w[i] = ref::add(ref::mul(w[i], k), w[(i + 1) % 12]);
+        for (int i = 0; i < 12; i += 3) w[i] = ref::neg(w[i]);
+    }
+    leaf_rounds(out, in, k);
+    for (int i = 0; i < 12; i++) if (out[i] != w[i]) return ctx.fail("three rounds of sub / mul-add / neg on a 12-element local array inside a leaf function: element " + std::to_string(i) + " is " + hx(out[i]) + ", want " + hx(w[i]));
+    return true;
+}
+
 // GMP cross-check of the u128 oracle (independent second opinion on the reference itself)
 static uint64_t gmp_op(int op, uint64_t a, uint64_t b)
 {
@@ -144,6 +196,10 @@ static bool body_mulscalar(const Case &c, Ctx &ctx)
     classify_bin(2, a, s, ctx);
     E ea = {a}, out = {0x3333333333333333ull};
     if (alias) { Goldilocks::mulScalar(ea, ea, s); out = ea; ctx.nt("alias:out==a"); } else Goldilocks::mulScalar(out, ea, s);
+    if ((c.v[2] >> 1) & 1) { // the integer scalar (a const reference parameter) is the word stored in the output element
+        E o2 = {s}; Goldilocks::mulScalar(o2, ea.fe == a ? ea : E{a}, o2.fe); ctx.nt("alias:scalar-is-the-output-cell's-word");
+        if (!alias && Goldilocks::toU64(o2) != want) return ctx.fail("mulScalar(out, base, out.fe) (the scalar argument refers to the output element's own word): got " + hx(Goldilocks::toU64(o2)) + " want " + hx(want));
+    }
     E t = {a};
     E r = Goldilocks::mulScalar(t, s);
     if (Goldilocks::toU64(out) != want) return ctx.fail("mulScalar out form: got " + hx(Goldilocks::toU64(out)) + " want " + hx(want));
@@ -178,6 +234,9 @@ int main(int argc, char **argv)
                                                  rc::gen::weightedOneOf<uint64_t>({{5, g::fe()}, {1, g::delta(PR - 1, 3)}, {1, g::delta(0, 2)}}), g::irange(0, 3), g::irange(0, 1)); },
          body_unary, 3, false, desc, 100},
         {"c01.mulScalar", bin(g::pair_mul), body_mulscalar, 2, false, desc, 100},
+        {"c01.leaf", [] { return g::fe_vec(13); }, body_leaf, 1, false, nullptr, 100},
+        {"c01.static_init", [] { return rc::gen::just(std::vector<uint64_t>{0}); }, body_static_init, 0.0001, false, nullptr, 100},
     };
+    for (auto &p : props) if (p.name != "c01.static_init") p.mt_ok = true; // (bodies keep no state: each may run as one of several concurrent callers, see pbt::concurrent_of)
     return pbt::harness_main(argc, argv, "h_c01", props);
 }
